@@ -23,6 +23,9 @@ TRAFFIC_110 = "traffic-110 2 R:32:64:0 R:0:0:0 P=FE110,a,MS,FS,a"
 # C06_example_held_acks: a 1.0.1-only reader sends two KEEPALIVEs and its rejection of the query while it does
 # not read; the second acknowledgement is WRITTEN after the client settled on 1.0.1
 HELD_ACKS = "held-acks 2 E:110 R:0:0:0 D1:2 LA"
+QUIET_MS = 240                  # client timeout in the sessions where a negotiation message is left unanswered on a live link
+# C06_example_late_answer: a 1.1 reader keeps the link alive with KEEPALIVEs and answers the query only after the client's timeout
+LATE_ANSWER = "late-answer 2 L:64:64:0 R:0:0:0 T%d" % QUIET_MS
 
 
 NEVER_REPLY = set()     # message types this tree never delivers as a reply (probed in run())
@@ -213,6 +216,29 @@ def sessions(tier):
     for o in (["D1:2"], ["D1:2", "D2:2", "LA"]):
         add(1, "R:64:64:0", "R:0:0:0", o)
         add(1, "E:%d" % VER_UNSUPPORTED, "R:0:0:0", o)
+    # grid 9 — a negotiation message that gets no answer while the link stays alive (S: the reader sends KEEPALIVEs
+    # instead, for ever) or gets its answer too late (L:<cb>:<mb>:<st>: KEEPALIVEs, then the response after one and a half
+    # client timeouts); clients with and without a timeout.  (N = nothing at all: a client with a timeout loses the link.)
+    tq = "T%d" % QUIET_MS
+    if thorough:
+        u1 = ["S"] + ["L:%d:%d:%d" % (c << 5, m << 5, s_) for c in range(8) for m in range(8) for s_ in (0, VER_UNSUPPORTED, 100)]
+        u2 = ["S"] + ["L:0:0:%d" % s_ for s_ in (0, VER_UNSUPPORTED, 100)]
+        n1 = resp_ok
+    else:
+        u1 = ["S", "L:64:64:0", "L:32:32:0", "L:64:32:0", "L:32:64:0", "L:0:32:0", "L:64:64:%d" % VER_UNSUPPORTED]
+        u2 = ["S", "L:0:0:0", "L:0:0:%d" % VER_UNSUPPORTED]
+        n1 = ["R:32:64:0", "R:64:32:0", "R:64:64:0", "R:0:32:0", "R:32:32:0"]
+    for to in ([], [tq]):
+        for a in u1:
+            for b in ["R:0:0:0"] + u2:
+                add(2, a, b, to)
+        for a in n1 + ["E:%d" % VER_UNSUPPORTED]:
+            for b in u2:
+                add(2, a, b, to)
+        for a, b, o in (("S", "S", []), ("L:64:64:0", "L:0:0:0", []), ("L:64:32:0", "L:0:0:0", ["LA"]), ("S", "R:0:0:0", ["LA"]),
+                        ("L:32:64:0", "R:0:0:0", ["P=" + probe]), ("R:64:32:0", "L:0:0:0", ["P=FE110," + probe]), ("L:32:32:0", "S", ["V212"])):
+            add(2, a, b, to + o)
+            add(1, a, b, to + o)
     # grid 4 — version bytes whose low five bits are not zero (the decoder must ignore them)
     if thorough:
         extra = [(cb, mb) for cb in range(256) for mb in range(256) if (cb & 31) or (mb & 31)]
@@ -220,7 +246,7 @@ def sessions(tier):
         extra = [((c << 5) | 31, (m << 5) | (1 + (c * 8 + m) % 31)) for c in range(8) for m in range(8)]
     for cb, mb in extra:
         add(2, "R:%d:%d:0" % (cb, mb), "R:0:0:0")
-    return [WITNESS, DOWNGRADE_KA, GREETING_11, EARLY_NOWAIT, TRAFFIC_110, HELD_ACKS] + main, over, sweep_desc
+    return [WITNESS, DOWNGRADE_KA, GREETING_11, EARLY_NOWAIT, TRAFFIC_110, HELD_ACKS, LATE_ANSWER] + main, over, sweep_desc
 
 
 EARLY_TYPE = {"EN": 64, "ES": 3}   # SendNoWait(ENABLE_EVENTS_AND_REPORTS) / SendMessage(SET_READER_CONFIG)
@@ -272,7 +298,16 @@ def traffic_tokens(script):
     return " ".join(out)
 
 
-def model_request(line, prestamp, override):
+def has_timeout(opts):
+    return any(o[:1] == "T" and o[1:].isdigit() and int(o[1:]) > 0 for o in opts)
+
+
+def quiet(r1, r2):
+    """a session in which a negotiation message may be left unanswered while the link stays alive (S) or answered late (L)"""
+    return kind(r1) in "SL" or kind(r2) in "SL"
+
+
+def model_request(line, prestamp, override, go=None):
     f = line.split()
     g = lambda r: "G" if r.startswith("G") else eff(r)
     opts = f[4:]
@@ -286,7 +321,21 @@ def model_request(line, prestamp, override):
             later = "Q%d: %s" % (EARLY_TYPE[e[:2]], later)
     (a1, d1), (a2, d2) = held_of(opts)
     # acknowledgements the reader reads before its answer goes out are, for the model, acknowledged at once
-    return "%d %d %s %d+%d %d+%d %s %s %s" % (prestamp, override, f[1], ("K1" in opts) + a1, d1, ("K2" in opts) + a2, d2, g(f[2]), g(f[3]), later)
+    k1, k2 = ("K1" in opts) + a1, ("K2" in opts) + a2
+    if quiet(f[2], f[3]) and go is not None:
+        # how many KEEPALIVEs fit into the wait is a matter of time: the model (which allows any number) is asked
+        # about the numbers that were acknowledged while the query / the switch was unanswered
+        ob = project_go(go, f[2])
+        if ob is not None:
+            k1, k2, switch_seen = 0, 0, False
+            for fr in ob["before"]:
+                if fr[1] == 47:
+                    switch_seen = True
+                elif fr[1] == 72 and switch_seen:
+                    k2 += 1
+                elif fr[1] == 72:
+                    k1 += 1
+    return "%d %d %s%s %d+%d %d+%d %s %s %s" % (prestamp, override, f[1], "T" if has_timeout(opts) else "", k1, d1, k2, d2, g(f[2]), g(f[3]), later)
 
 
 def frames(s):
@@ -303,12 +352,25 @@ def kind(r):
     return r.split(":")[0][0]
 
 
-def demanded(cmax, r1, r2):
+def unanswered(r, to):
+    """the negotiation message gets no answer the client could use: none at all, or (for a client with a timeout) a late one"""
+    return kind(r) in ("N", "S") or (kind(r) == "L" and to)
+
+
+def demanded(cmax, r1, r2, to=True):
     """What the property text demands of this session, independently of the Coq model.
     Returns dict(neg=bool, sets=None|0|1, outcome=None|'proceeds'|'fails', version=None|int,
     why=str).  None = the property is silent."""
     if cmax <= 1:
         return dict(neg=False, sets=0, outcome="proceeds", version=cmax, why="client limited to 1.0.1")
+    if unanswered(r1, to):
+        # "settles on the lower of its own maximum and the reader's maximum (1.0.1 if the reader REJECTS the query …)":
+        # nothing was learnt and nothing was rejected — Connect must not succeed.  A client with a timeout has to give
+        # up (fail); one without may go on waiting
+        return dict(neg=True, sets=0, outcome="fails" if to else "not-proceeds", version=None,
+                    why="no reply to the query" + (" within the client's timeout" if to else ""))
+    if kind(r1) == "L":
+        r1 = "R" + r1[1:]       # no timeout: a slow reply is a reply
     p = r1.split(":")
     k = kind(r1)
     if k == "E":
@@ -322,8 +384,8 @@ def demanded(cmax, r1, r2):
         return dict(neg=True, sets=0, outcome="fails", version=None, why="wrong reply type to the query")
     if k == "O":
         return dict(neg=True, sets=0, outcome="fails", version=None, why="oversize reply to the query")
-    if k in ("G", "N"):
-        return dict(neg=True, sets=None, outcome=None, version=None, why="undecodable/no reply to the query (not judged)")
+    if k == "G":
+        return dict(neg=True, sets=None, outcome=None, version=None, why="undecodable reply to the query (not judged)")
     cb, mb, st = int(p[1]), int(p[2]), int(p[3])
     if st != 0:
         return dict(neg=True, sets=0, outcome="fails", version=None, why="error status in the query's response")
@@ -331,6 +393,11 @@ def demanded(cmax, r1, r2):
     chosen = min(cmax, mx)
     if cur == chosen:
         return dict(neg=True, sets=0, outcome="proceeds", version=chosen, why="reader already uses the chosen version")
+    if unanswered(r2, to):
+        return dict(neg=True, sets=1, outcome="fails" if to else "not-proceeds", version=chosen,
+                    why="no reply to the switch" + (" within the client's timeout" if to else ""))
+    if kind(r2) == "L":
+        r2 = "R" + r2[1:]
     k2 = kind(r2)
     q = r2.split(":")
     if k2 == "R":
@@ -345,12 +412,12 @@ def demanded(cmax, r1, r2):
         return dict(neg=True, sets=1, outcome="fails", version=chosen, why="wrong reply type to the switch")
     if k2 == "O":
         return dict(neg=True, sets=1, outcome="fails", version=chosen, why="oversize reply to the switch")
-    return dict(neg=True, sets=1, outcome=None, version=chosen, why="undecodable/no reply to the switch (not judged)")
+    return dict(neg=True, sets=1, outcome=None, version=chosen, why="undecodable reply to the switch (not judged)")
 
 
 def judge(cmax, r1, r2, ob, opts=()):
     """property clauses evaluated on the observation; returns [(signature, text)]"""
-    d = demanded(cmax, r1, r2)
+    d = demanded(cmax, r1, r2, has_timeout(opts))
     v = []
     before, after = ob["before"], ob["after"]
     allf = before + after
@@ -391,7 +458,13 @@ def judge(cmax, r1, r2, ob, opts=()):
                 v.append(("set-version-names-wrong-version",
                           "SET_PROTOCOL_VERSION payload %s does not name the settled version %d" % (sorted(named), d["version"])))
     out = "fails" if ob["outcome"] == "panic" and kind(r1) == "O" else ob["outcome"]
-    if out not in ("proceeds", "fails"):
+    if d["outcome"] == "not-proceeds":
+        # a client without a timeout facing a negotiation message that is never answered: it may fail or go on waiting
+        if out == "proceeds":
+            v.append(("failure-does-not-fail-connect:" + d["why"].replace(" ", "-"), "%s, yet Connect proceeds" % d["why"]))
+        elif out not in ("fails", "waits"):
+            v.append(("connect-" + out, "Connect did not end normally (%s) for %s / %s" % (out, r1, r2)))
+    elif out not in ("proceeds", "fails"):
         v.append(("connect-" + out, "Connect did not end normally (%s) for %s / %s" % (out, r1, r2)))
     elif d["outcome"] == "fails" and out != "fails":
         v.append(("failure-does-not-fail-connect:" + d["why"].replace(" ", "-"),
@@ -447,7 +520,7 @@ def project_go(line, r1):
 
 def project_model(line):
     f = line.split()
-    if len(f) != 4 or f[0] not in ("proceeds", "fails"):
+    if len(f) != 4 or f[0] not in ("proceeds", "fails", "waits"):
         return None
     return dict(outcome=f[0], ver=int(f[1]), neg=frames(f[2]), later=frames(f[3]))
 
@@ -471,7 +544,8 @@ def run(tier, seed, replay=None):
     res.assumptions = vlib.TRUSTED_COMMON + [
         "the scripted reader (harness/llrp/c06_test.go, own frame code) and net.Pipe deliver bytes faithfully; 'frames before/after the outcome' relies on net.Pipe writes completing only when read",
         "reader reactions are the finite set enumerated here (version bytes v<<5 for v in 0..7 + low-bit variants, the swept status codes, the listed wrong types, one oversize size, three undecodable payloads, silence; at most one KEEPALIVE at each of the two points inside negotiation); the theorems quantify over all reactions and any number of keep-alives symbolically",
-        "an ERROR_MESSAGE carrying status Success, undecodable and missing replies, and the version of acknowledgements written DURING negotiation are compared with the model only (the property text does not name them)",
+        "an ERROR_MESSAGE carrying status Success, undecodable replies, and the version of acknowledgements written DURING negotiation are compared with the model only (the property text does not name them)",
+        "a negotiation message that gets no answer (none at all; none while KEEPALIVEs keep the link alive; one that arrives after the client's timeout) must not lead to a successful Connect: without an answer the reader's maximum is not known and nothing was rejected as an unsupported version. A client with a timeout must fail; one without may fail or still be waiting (observed for 300 ms). How many KEEPALIVEs are acknowledged during the wait is a matter of time: the model is asked about the observed numbers",
         "a frame is 'sent' when the write loop writes it: of the acknowledgements a reader finds after it had stopped reading around its last negotiation answer, the first (its write was under way on net.Pipe when the answer was sent) counts as written during negotiation, the others as written afterwards; 'the client has acted on the answer' is observed as Connect proceeding/returning or Client.version changing (else 25 ms)",
         "a 'wrong type' reply of a type the tree never delivers as a reply (probed: KeepAlive/ROAccessReport/ReaderEventNotification after fix 6decaf2) is the no-reply reaction",
         "the oversize reply to GET_SUPPORTED_VERSION is property C10's (defect F4); a crash there is noted, not judged here",
@@ -528,7 +602,7 @@ def run(tier, seed, replay=None):
     # configuration is run a second time, few at a time (the sessions with a silent reader depend
     # on a client timeout, and the first pass runs sixteen sessions at a time); the second
     # observation is the one that is judged
-    o_conf1 = vlib.run_oracle("c06", "\n".join(model_request(c[0], 0, 0) for c in cases) + "\n")[1].split("\n")
+    o_conf1 = vlib.run_oracle("c06", "\n".join(model_request(c[0], 0, 0, c[1]) for c in cases) + "\n")[1].split("\n")
     suspicious = []
     for i, (line, g) in enumerate(cases):
         cmax, r1, r2, opts, ob = observe(line, g)
@@ -546,8 +620,8 @@ def run(tier, seed, replay=None):
                 reruns += 1
 
     reqs = [c[0] for c in cases]
-    o_today = vlib.run_oracle("c06", "\n".join(model_request(l, 1, 0) for l in reqs) + "\n")[1].split("\n")
-    o_conf = vlib.run_oracle("c06", "\n".join(model_request(l, 0, 0) for l in reqs) + "\n")[1].split("\n")
+    o_today = vlib.run_oracle("c06", "\n".join(model_request(l, 1, 0, g) for l, g in cases) + "\n")[1].split("\n")
+    o_conf = vlib.run_oracle("c06", "\n".join(model_request(l, 0, 0, g) for l, g in cases) + "\n")[1].split("\n")
     if len(o_today) < len(reqs) or len(o_conf) < len(reqs):
         res.violation("oracle-run", "oracle gave %d/%d answers" % (len(o_today), len(reqs)), dict(kind="oracle"), False)
         return res.finish()
@@ -564,8 +638,8 @@ def run(tier, seed, replay=None):
         dist[key] = dist.get(key, 0) + 1
         mo_t, mo_c = project_model(mt), project_model(mc)
         replay_d = dict(kind="session", correspondence="C06/negotiate-vs-Connect", cases=[line], observed=g,
-                        model_today=mt, model_conforming=mc, demanded=demanded(cmax, r1, r2),
-                        how="request line of harness/llrp/c06_test.go: <sid> <client max> <reaction to GET_SUPPORTED_VERSION> <reaction to SET_PROTOCOL_VERSION> "
+                        model_today=mt, model_conforming=mc, demanded=demanded(cmax, r1, r2, has_timeout(opts)),
+                        how="request line of harness/llrp/c06_test.go: <sid> <client max> <reaction to GET_SUPPORTED_VERSION> <reaction to SET_PROTOCOL_VERSION> (R:<cur>:<max>:<status> response | E:<status> ERROR_MESSAGE | W:<type> | O oversize | G<n> undecodable | N nothing at all | S no reply but KEEPALIVEs keep the link alive | L:<cur>:<max>:<status> KEEPALIVEs, then the response after 1.5 client timeouts) "
                             "[T<ms> client timeout] [K1|K2: KEEPALIVE while the query|switch is unanswered] [LA: after negotiation ack first] "
                             "[D1:<n>|D2:<n>: the reader sends n KEEPALIVEs and then its answer to the query|switch WITHOUT reading, and reads again only when the client has acted on the answer] [P=<steps>: traffic script after negotiation: a = keep-alive, <M|F|N><S|X<st>|E<st>|W|N> = request via SendMessage|SendFor|SendNoWait answered with success | status in response | status in ERROR_MESSAGE | wrong type | nothing] [V<g><n><l>: header versions the reader uses for greeting / during / after negotiation] [EN|ES 0|1|2: early SendNoWait|SendMessage before Connect | during query | during switch]; "
                             "observed: <outcome> <Client.version> <frames before outcome> <frames after> (version:type:payload) … h<KEEPALIVEs sent unread with the last negotiation answer>")
@@ -603,6 +677,10 @@ def run(tier, seed, replay=None):
                 ("early-sendnowait-during-query", f[0] == "early-nowait"),
                 ("traffic-after-error-110", f[0] == "traffic-110"),
                 ("acks-held-back-by-a-reader-that-stops-reading", f[0] == "held-acks"),
+                ("query-answered-after-the-client's-timeout-link-alive", f[0] == "late-answer"),
+                ("query-never-answered-link-alive-no-client-timeout", cmax == 2 and r1 == "S" and r2 == "R:0:0:0" and not shape and not has_timeout(opts)),
+                ("switch-never-answered-link-alive", cmax == 2 and r1 == "R:64:32:0" and r2 == "S" and not shape and has_timeout(opts)),
+                ("slow-answers-no-client-timeout", cmax == 2 and r1 == "L:64:32:0" and r2 == "L:0:0:0" and not shape and not has_timeout(opts)),
                 ("acks-held-back-at-both-points-of-a-downgrade", cmax == 2 and r1 == "R:64:32:0" and r2 == "R:0:0:0" and shape == ["D1:2", "D2:2"]),
                 ("traffic-mixed", cmax == 2 and r1 == "R:64:32:0" and any(o.startswith("P=FS,a,FE110") for o in opts) and "K1" in opts),
                 ("early-sendmessage-before-connect", cmax == 2 and r1 == "R:32:64:0" and r2 == "R:0:0:0" and shape == ["ES0"])]
@@ -627,7 +705,7 @@ def run(tier, seed, replay=None):
     res.notes.append("types never delivered as replies by this tree (probed): %s" % sorted(NEVER_REPLY))
     res.coverage.update(
         evaluations=n, distinct_nontrivial=len(nontriv),
-        rule="the union of eight completely enumerated grids. (1) reactions: client max {1.0.1, 1.1} x reaction to GET_SUPPORTED_VERSION "
+        rule="the union of nine completely enumerated grids. (1) reactions: client max {1.0.1, 1.1} x reaction to GET_SUPPORTED_VERSION "
              "(response with current,max in 0..7 and status in {0,110,100}; ERROR_MESSAGE with those statuses; wrong types; oversize; three undecodable "
              "payloads; silence) x reaction to SET_PROTOCOL_VERSION (same kinds). (2) status codes (%s), one session each in the four places a status "
              "can stand: ERROR_MESSAGE to the query, status of the query's response, status of the switch's response, ERROR_MESSAGE to the switch. "
@@ -645,6 +723,9 @@ def run(tier, seed, replay=None):
              "the switch are sent while nothing is read, reading resumes when the client has acted on the answer — the acknowledgements are written "
              "after the answer took effect — x {64 successful responses, E:110, E:0, E:100, wrong type, undecodable} x {switch accepted, refused} "
              "(thorough: all reactions) x order after negotiation, also with some frames read in between (patterns of k = KEEPALIVE / r = read one frame before the answer), + combinations with keep-alives acknowledged at once, traffic scripts, early callers, header versions. "
+             "(9) a negotiation message left unanswered on a live link: reaction S (KEEPALIVEs instead of an answer, for ever) or L (KEEPALIVEs, then the response after "
+             "one and a half client timeouts) to the query x {switch accepted, S, L} and {successful responses, E:110} x {S, L accepted, L refused} to the switch, "
+             "clients with a timeout (240 ms) and without, + order / traffic / header-version variants and client max 1.0.1 (thorough: every late response 0..7 x 0..7 x status {0,110,100}). "
              "'Before the end of negotiation' = read by the reader before it sent its last negotiation answer. Each session = Connect on net.Pipe, then two SendMessage requests and one or two KEEPALIVEs "
              "in the stated order, every frame's version bits recorded; non-trivial iff client max is 1.1 (negotiation takes place); distinct by "
              "(client max, reaction 1, reaction 2, keep-alive points, order)" % sweep_desc,
